@@ -11,7 +11,7 @@
    any interleaving, a crash of any process between any two atomic steps (a write is five steps:
    truncate, three growing prefixes, complete). *)
 From Coq Require Import List Arith.
-From Verif.C20 Require Import Model Proofs.
+From Verif.C20 Require Import Model Proofs Faults.
 Import ListNotations.
 
 (* The invariant holds in the empty cache directory and is kept by every step. *)
@@ -132,3 +132,57 @@ Theorem cold_start_refuted : forall orc,
   outcome_of (run NewCC orc tr_cold_start init) 1 = Some Exn.
 Proof. exact cold_start_refuted_l. Qed.
 Print Assumptions cold_start_refuted.
+
+(* ---- fault histories across restarts (Faults.v): every file x every size class / deletion / garbage,
+        singly and in sequence, scripts/clear-cache.py, interleaved with arbitrary concurrent sessions ---- *)
+
+(* One fault (external damage of all files of a role to any class, or clear-cache.py) that hits the
+   directory while nobody is compiling keeps the invariant -- the only fault excluded is a finished .so
+   cut to a size class on which dlopen kills the interpreter ([safe_fault]). *)
+Theorem fault_preserves_invariant : forall orc st f,
+  Inv orc st -> quiescent st -> safe_fault orc f -> Inv orc (apply_fault st f).
+Proof. exact fault_preserves_inv. Qed.
+Print Assumptions fault_preserves_invariant.
+
+(* recovery at full strength: after ANY history -- sessions of any number of processes under any schedule
+   with kills at any point, alternating with any sequence of such faults -- a fresh request returns the
+   right assembler within FUEL steps. *)
+Theorem recovery_after_faults : forall orc h st p n,
+  hist orc init h st -> procs st p = None ->
+  outcome_of (solo New orc FUEL (step New orc st (Spawn p n)) p) p = Some (Ok n).
+Proof. exact recovery_after_faults_l. Qed.
+Print Assumptions recovery_after_faults.
+
+(* ... and throughout such a history every process that finished un-killed had the right assembler *)
+Theorem race_safety_after_faults : forall orc h st p q o,
+  hist orc init h st -> procs st p = Some q -> ppc q = PDone o -> o = Ok (pform q) \/ o = Killed.
+Proof. exact race_safety_faults_l. Qed.
+Print Assumptions race_safety_after_faults.
+
+(* recovery from EVERY directory, not only reachable ones: arbitrary content of every .pyx/.c/.o under a
+   final name (e.g. left-overs of the unrepaired protocol), arbitrary content of the build directories of
+   dead processes, MODDIR present or not; final .so entries absent, right, or damaged in a class dlopen
+   rejects (or loads, being a prefix of the right one). *)
+Theorem recovery_every_directory : forall orc st p n,
+  settled st ->
+  (forall p, procs st p = None -> forall r, files st (Tmp p r) = Absent) ->
+  (forall n, final_ok orc n (files st (Final So n))) ->
+  procs st p = None ->
+  outcome_of (solo New orc FUEL (step New orc st (Spawn p n)) p) p = Some (Ok n).
+Proof. exact recovery_every_directory_l. Qed.
+Print Assumptions recovery_every_directory.
+
+(* sharpness of the exclusion (this is the open finding impl:interpreter-death:dmg-so-Header): in ANY state, if
+   the entry of form n is a prefix in a class on which dlopen crashes, the next request for n dies. *)
+Theorem crash_class_kills : forall orc st p n k c,
+  procs st p = None -> files st (Final So n) = Partial k c -> orc k = Crash ->
+  outcome_of (solo New orc FUEL (step New orc st (Spawn p n)) p) p = Some Death.
+Proof. exact crash_class_kills_l. Qed.
+Print Assumptions crash_class_kills.
+
+(* sharpness of [quiescent]: clear-cache.py while a process is compiling makes that process fail *)
+Theorem clear_during_build_refuted : forall orc,
+  ~ quiescent (run New orc tr_before_mkdtemp init) /\
+  outcome_of (step New orc (clear_cache (run New orc tr_before_mkdtemp init)) (Step 0)) 0 = Some Exn.
+Proof. exact clear_during_build_refuted_l. Qed.
+Print Assumptions clear_during_build_refuted.
